@@ -461,9 +461,18 @@ impl Calibrations {
                                         pragma.data = Some(target.to_quil_or_debug())
                                     }
                                 }
-                                Instruction::Capture(capture) => {
+                                // The measurement's target replaces uses of the calibration's
+                                // target name; captures into other regions stay as written.
+                                Instruction::Capture(Capture {
+                                    memory_reference, ..
+                                })
+                                | Instruction::RawCapture(RawCapture {
+                                    memory_reference, ..
+                                }) if Some(&memory_reference.name)
+                                    == calibration.identifier.target.as_ref() =>
+                                {
                                     if let Some(target) = &measurement.target {
-                                        capture.memory_reference = target.clone()
+                                        *memory_reference = target.clone()
                                     }
                                 }
                                 _ => {}
